@@ -28,6 +28,15 @@ HOSTILE = [
     ("ansi", "comment-inside-expr", "SELECT a + -- plus\nb, c FROM t\n"),
     ("postgres", "array-slice", "SELECT a[1:2], b [ 1 ] FROM t\n"),
     ("snowflake", "colon-path", "SELECT v:a.b::string , v : c FROM t\n"),
+    ("ansi", "comment-then-bracket-top", "SELECT foo -- which function\n(1) FROM t\n"),
+    ("postgres", "comment-then-index", "SELECT arr -- c\n[1] FROM t\n"),
+    ("postgres", "comment-then-cast", "SELECT a -- c\n::int FROM t\n"),
+    ("mysql", "hash-comment-then-bracket", "SELECT foo # c\n(1) FROM t\n"),
+    ("postgres", "cast-after-minus", "SELECT a::int, 2 -CAST(-1 AS int) AS x, 3 -CAST(+2 AS int) AS y FROM t\n"),
+    ("tsql", "convert-after-minus", "SELECT 2 -CONVERT(int, -1) AS x, CAST(1 AS int) FROM t\n"),
+    ("snowflake", "cast-signed", "SELECT b::int, 5 -CAST(-3 AS int) FROM t\n"),
+    ("ansi", "distinct-comment", "SELECT DISTINCT -- c\n a, b FROM t\n"),
+    ("ansi", "operator-comment", "SELECT a-- c\n- b, c FROM t\n"),
     ("sqlite", "exists", "SELECT a FROM t WHERE EXISTS(SELECT 1 FROM u WHERE u.a = t.a) AND a<>1 AND b!=2\n"),
 ]
 
